@@ -82,7 +82,7 @@ type RS struct {
 }
 
 // NumHidden is the number of hidden perturbations per module (0 = none).
-var NumHidden = []int{19, 2, 9, 10, 3, 4}
+var NumHidden = []int{19, 2, 11, 10, 3, 4}
 
 // ID encodes the rule's content class (module, resource, variant) and its table index. Rule
 // managers reuse the controller (and the rule object) of an earlier load for a rule that is
@@ -125,7 +125,11 @@ func (r RS) Aborts() bool {
 // NotJSON: the variant cannot be written in JSON.
 func (r RS) NotJSON() bool { return r.NotANumber() || (r.M == Flow && r.Var == 13) }
 
-func (r RS) Blocker() bool { return r.Valid() && r.Var == 1 }
+func (r RS) Blocker() bool {
+	// (a hot-parameter rule with a high threshold whose table of specific values bars the very value the probes
+	// carry blocks them too)
+	return r.Valid() && (r.Var == 1 || (r.M == Hotspot && r.Var == 0 && r.Hid == 9))
+}
 
 func ResName(i int) string {
 	if i < 0 {
@@ -313,6 +317,13 @@ func BuildHotspot(r RS) *hotspot.Rule {
 		case 8:
 			// likewise for a throttling rule: the burst count
 			x.ControlBehavior, x.MaxQueueingTimeMs, x.BurstCount = hotspot.Throttling, 5, 4
+		case 9, 10:
+			// two tables of specific values of the same size that bar (threshold 0) different values: 9 bars the
+			// value the probes carry (the int 1), 10 another one. (A comparison of tables that reads a missing key as
+			// 0 takes them for equal and keeps the controller of the older one.)
+			if r.Var == 0 {
+				x.SpecificItems = map[interface{}]int64{r.Hid - 8: 0}
+			}
 		}
 	}
 	return x
